@@ -8,6 +8,7 @@ python3 - <<'PY'
 import sys
 sys.path.insert(0, '.')
 from jrsa import extract
-d, th = extract.ensure_facts('libs-all', verbose=True)
-print("facts ready:", d)
+for cfg in ('libs-all', 'corpus', 'pmcore'):
+    d, th = extract.ensure_facts(cfg, verbose=True)
+    print("facts ready:", cfg, d)
 PY
